@@ -27,6 +27,13 @@ fn main() {
         let r = backup::db_reader(&args[2], args[3].parse().unwrap_or(1000));
         std::process::exit(if r.is_ok() { 0 } else { 2 });
     }
+    if args[1] == "restore-cache-probe" {
+        let r = backup::cache_probe(&args[2], &args[3]);
+        if let Err(e) = &r {
+            eprintln!("{e:?}");
+        }
+        std::process::exit(if r.is_ok() { 0 } else { 2 });
+    }
     let rt = tokio::runtime::Builder::new_multi_thread().worker_threads(std::env::var("VH_THREADS").ok().and_then(|s| s.parse().ok()).unwrap_or(2)).enable_all().build().unwrap();
     let res: eyre::Result<()> = rt.block_on(async {
         match args[1].as_str() {
